@@ -56,6 +56,7 @@ func closeBackend() {
 		theBackend.Close()
 		theBackend = nil
 	}
+	RemovePrivateLpg()
 }
 
 func freshName(prefix string) string {
